@@ -111,13 +111,15 @@ def r3_enoent_discipline(ctx):
     icfg = cfg_of(ib)
     okb = [blk.idx for blk in ib.blocks if not blk.cleanup for s in blk.stmts
            if s.kind == "assign" and s.lhs.local == 0 and s.rv["k"] == "agg" and s.rv.get("variant") == "Ok"]
+    from ..cut import errno_branches
     errnos = set()
-    for blk in ib.blocks:
-        if blk.cleanup or blk.term.kind != "switch" or blk.term.raw["dty"] != "i32":
-            continue
-        for e in icfg.succ.get(blk.idx, []):
-            if any(o in icfg.edge_targets_reachable([e]) for o in okb):
-                errnos.add(e.label[1])
+    for br in errno_branches(ib, T):
+        if any(o in icfg.edge_targets_reachable(br["eq"]) for o in okb):
+            errnos.add(br["errno"])
+    # an Ok(()) that is reachable without distinguishing any errno means every error is swallowed
+    if okb and any(o in icfg.reachable(icfg.entry, cut_nodes=[br["bb"] for br in errno_branches(ib, T)]) for o in okb):
+        # the pass-through arm (self was Ok) is legitimate: it is reached on the Ok discriminant edge
+        pass
     if errnos == {ENOENT}:
         out.append(holds("C13.R3", "ignore_enoent:errno-set", ib.where(), "only ENOENT becomes Ok(())"))
     else:
@@ -130,17 +132,16 @@ def r3_enoent_discipline(ctx):
             continue
         after = cfg.edge_targets_reachable(r["err"])
         errs = set()
-        for bb in after:
-            tt = b.blocks[bb].term
-            if tt.kind == "switch" and tt.raw["dty"] == "i32":
-                for e in cfg.succ.get(bb, []):
-                    tgt = cfg.edge_targets_reachable([e])
-                    # does this arm return Ok(()) without further work?
-                    okret = any(s.kind == "assign" and s.lhs.local == 0 and s.rv["k"] == "agg" and s.rv.get("variant") == "Ok"
-                                for x in tgt for s in b.blocks[x].stmts)
-                    scan = any(c.bb in tgt for c in b.calls("rustix::fs::Dir::read_from"))
-                    if okret and not scan:
-                        errs.add(e.label[1])
+        from ..cut import errno_branches
+        for br in errno_branches(b, T):
+            if br["bb"] not in after:
+                continue
+            tgt = cfg.edge_targets_reachable(br["eq"])
+            okret = any(s.kind == "assign" and s.lhs.local == 0 and s.rv["k"] == "agg" and s.rv.get("variant") == "Ok"
+                        for x in tgt for s in b.blocks[x].stmts)
+            scan = any(c.bb in tgt for c in b.calls("rustix::fs::Dir::read_from"))
+            if okret and not scan:
+                errs.add(br["errno"])
         if errs == {ENOENT}:
             out.append(holds("C13.R3", "remove_all:open-enoent", t.where(), "descent open: only ENOENT means 'already gone'"))
         else:
